@@ -249,6 +249,15 @@ def r3(ctx):
     for i, (nm, op, A, B, symm) in want.items():
         c = core(tup[i])
         so = setop(c[2][0]) if c[0] == 'call' and c[1].endswith('Iterator::count') else None
+        if so is None and c[0] == 'call' and c[1].endswith('Vec::len') and core(c[2][0])[0] == 'call' and core(c[2][0])[1].endswith('_offset_operations'):
+            # the length of the info list: _offset_operations yields exactly one entry per element of the set view it is given
+            from analysis.seq import seq_of
+            oo = ctx.body(M + '_offset_operations')
+            orv = ret_values(oo)
+            osegs = seq_of(ctx.facts, oo, orv[0][0]) if len(orv) == 1 else None
+            if osegs is not None and len(osegs) == 1 and osegs[0].kind == 'each' and not osegs[0].conds and has(osegs[0].src, ('arg', 1, ANY)) and \
+                    not [x for x in walk(osegs[0].src) if isinstance(x, tuple) and x and x[0] == 'call' and re.search(r'::(filter|filter_map|take|skip|step_by|dedup|unique)\w*$', x[1])]:
+                so = setop(core(c[2][0])[2][0])
         ok = so is not None and so[0] == op and ((match(so[1], A) and match(so[2], B)) or (symm and match(so[1], B) and match(so[2], A)))
         ctx.require(ok, w, 'ws-set-op|' + nm, 'whitespace %s = count of %s of the (input,target) / (input,predicted) operation sets in the right order' % (nm, op),
                     'whitespace %s = %s' % (nm, show_in(w, tup[i])))
